@@ -157,7 +157,7 @@ func slotWordWrite(r *Run, in ssa.Instruction) (kind string, addr ssa.Value) {
 		return "", nil
 	}
 	ft := elemOf(addr.Type())
-	if b, ok := ft.Underlying().(*types.Basic); ok && b.Kind() == types.UnsafePointer {
+	if core.IsAtomicPointerType(ft) {
 		if a.Field != "" && a.Field[len(a.Field)-1] != ']' {
 			return "link", addr
 		}
@@ -539,7 +539,7 @@ func slotKind(r *Run, addr ssa.Value) (string, core.AddrPath) {
 		return "", a
 	}
 	ft := elemOf(addr.Type())
-	if b, ok := ft.Underlying().(*types.Basic); ok && b.Kind() == types.UnsafePointer {
+	if core.IsAtomicPointerType(ft) {
 		if a.Field != "" && a.Field[len(a.Field)-1] != ']' {
 			return "link", a
 		}
